@@ -140,9 +140,10 @@ def main():
                 sr = spikeglx.Reader(binf)
                 labels = voltage.detect_bad_channels_cbin(sr) if sc["reject"] else None
                 exp = expected_batches(sc, data, labels, sr)
-                got = o[:ns, :384].astype(np.float64)
-                res["max_lsb_diff"] = float(np.max(np.abs(got - np.trunc(exp[:, :384]))))
-                res["frac_gt1"] = float(np.mean(np.abs(got - np.trunc(exp[:, :384])) > 1.0 + 1e-6))
+                m = min(ns, o.shape[0])            # a short output is judged by the length clauses; compare what exists
+                got = o[:m, :384].astype(np.float64)
+                res["max_lsb_diff"] = float(np.max(np.abs(got - np.trunc(exp[:m, :384])))) if m else 0.0
+                res["frac_gt1"] = float(np.mean(np.abs(got - np.trunc(exp[:m, :384])) > 1.0 + 1e-6)) if m else 0.0
                 res["out_std"] = float(got.std())
                 sr.close()
     except BaseException as e:  # noqa
